@@ -4,7 +4,7 @@
    A query the real run never made gives [Err EOracleMiss] (or a marker
    value), which shows up as a disagreement: this is how "the primitive was
    fed exactly these octets" is checked. *)
-From Model Require Import Jws.
+From Model Require Import Json Jws JwsJson.
 From Gen Require Import Tables.
 Open Scope N_scope.
 
@@ -71,12 +71,17 @@ Section Tables.
   Definition miss {A} (o : option (res A)) : res A :=
     match o with Some r => r | None => Err EOracleMiss end.
 
+  (* json: the recorded table where the run recorded a row (texts that are not
+     ASCII, values with floats, parse errors); otherwise the Gallina JSON model *)
   Definition T_loads (raw : bytes) : res pv :=
-    miss (lookup (fun o => match o with OLoads x r => if beqb x raw then Some r else None | _ => None end) t).
+    match lookup (fun o => match o with OLoads x r => if beqb x raw then Some r else None | _ => None end) t with
+    | Some r => r
+    | None => g_loads raw
+    end.
   Definition T_dumps (v : pv) : bytes :=
     match lookup (fun o => match o with ODumps x r => if pv_eqb x v then Some r else None | _ => None end) t with
     | Some r => r
-    | None => [0; 77; 73; 83; 83]
+    | None => g_dumps v
     end.
   Definition T_mac (h : string) (kid : N) (msg : bytes) : res bytes :=
     miss (lookup (fun o => match o with
